@@ -625,6 +625,9 @@ func (g *fnGen) store(st *state, a *addr, val string, instr ssa.Instruction) {
 			g.guardObligation(st, a.prov, true, instr)
 		}
 		g.frameObligation(st, "field", a.ref, g.fieldArrayName(a.structT, a.field), instr)
+		if g.ct != nil && g.ct.Flags["checks-writeguards"] {
+			g.writeGuardObligations(st, a, instr)
+		}
 		if g.ct != nil && g.ct.Flags["readonly-receiver"] && len(g.fn.Params) > 0 && g.fn.Signature.Recv() != nil {
 			if _, isPtr := g.fn.Params[0].Type().Underlying().(*types.Pointer); isPtr {
 				g.oblige(st, "readonly", a.field.Name()+" <- "+g.anchor(instr.Pos(), "store"), instr.Pos(), "", Not(S("=", a.ref, g.vals[g.fn.Params[0]])), "evaluation does not write the receiver (an AST node is shared by every evaluation of it)")
@@ -1847,4 +1850,22 @@ func recoverOnlyClosure(fn *ssa.Function) bool {
 		}
 	}
 	return true
+}
+
+func (g *fnGen) writeGuardObligations(st *state, a *addr, instr ssa.Instruction) {
+	n, ok := a.structT.(*types.Named)
+	if !ok || n.Obj().Pkg() == nil {
+		return
+	}
+	for _, wg := range g.P.cs.WriteGuards {
+		if wg.PkgPath != n.Obj().Pkg().Path() || wg.Struct != n.Obj().Name() || wg.Field != a.field.Name() {
+			continue
+		}
+		t, err := g.evalBool(wg.E, &evalEnv{g: g, cur: st, old: g.entry, mode: "callee", names: map[string]binding{"self": {a.ref, types.NewPointer(a.structT)}}, pkg: n.Obj().Pkg()})
+		if err != nil {
+			g.stale = append(g.stale, fmt.Sprintf("writeguard %s.%s: %v", wg.Struct, wg.Field, err))
+			continue
+		}
+		g.oblige(st, "write-guard", wg.Struct+"."+wg.Field+" <- "+g.anchor(instr.Pos(), "store"), instr.Pos(), "", t, "write to "+wg.Struct+"."+wg.Field+" is allowed only when: "+wg.Src)
+	}
 }
